@@ -320,13 +320,23 @@ class Recorder:
             a["best"] = (_key(bi.genome), float(bi.fitness))
             a["all"] = guarded(lambda: [(_key(i.genome), float(i.fitness)) for i in tree.all_individuals])
             a["r5s"] = guarded(lambda: [(_key(i.genome), float(i.fitness)) for i in tree.r5s_solutions])
+            a["tree_misc"] = guarded(lambda: (tree.height, tree.root.id, [d.id for d in tree.leaves], [d.id for _, d in tree.active_demes],
+                                              [d.id for _, d in tree.active_non_leaves], [[d.id for d in lv] for lv in tree.levels],
+                                              int(tree.metaepoch_count), int(tree.n_evaluations)))
+            a["best_leaf"] = guarded(lambda: (lambda b: (_key(b.genome), float(b.fitness)))(tree.best_leaf_individual))
             a["demes"] = []
             for _, d in tree.all_demes:
                 a["demes"].append((d.id,
                                    guarded(lambda: (lambda b: None if b is None else (_key(b.genome), float(b.fitness)))(d.best_individual)),
                                    guarded(lambda: (lambda c: None if c is None else np.asarray(c).tobytes())(d.centroid)),
                                    guarded(lambda: sorted(d.best_fitness_by_metaepoch.items())),
-                                   d.n_evaluations, d.metaepoch_count, d.is_active))
+                                   d.n_evaluations, d.metaepoch_count, d.is_active,
+                                   guarded(lambda: (lambda b: None if b is None else (_key(b.genome), float(b.fitness)))(d.best_current_individual)),
+                                   guarded(lambda: len(d.all_individuals)), guarded(lambda: [len(g) for g in d.history]),
+                                   guarded(lambda: len(d.current_population)), guarded(lambda: (d.name, str(d), d.level, d.started_at)),
+                                   guarded(lambda: d.iterations_count_since_last_sprout),
+                                   guarded(lambda: (lambda m: None if m is None else np.asarray(m).tobytes())(d.mean)),
+                                   guarded(lambda: [c.id for c in d.children])))
             return a
         try:
             a1 = answers()
